@@ -139,7 +139,7 @@ def directed(ctx, lw, rng, cls):
 
 
 def run(ctx):
-    lw = setup(ctx)
+    lw = setup(ctx, warm=False)
     rng = ctx.rng
     cls = AddClassifier(ctx)
     try:
